@@ -29,8 +29,8 @@ CLAIMED = {
         text='_simplify is proved to preserve lookups and validity and to reach from global slices the first class in the preference order able to represent the values; merges of canonical inputs (slice) and of any valid inputs (time, vector) and the three-level conversion merge are proved canonical; reference minimal class computed independently on every result.',
         design='DESIGN.md §7 C06', note=BASE_NOTE),
     'C13': dict(
-        technique='Lean 4 theorems (per-key factorisation of dictionary updates) + before/after snapshots + single-key re-runs on the implementation',
-        text='A per-key update run over a dictionary is proved to change each key independently (foldl_putKey_key, insertWith_key, filterMeta_key); on the implementation every merge/subset input is snapshotted before and after and every result is compared with the result of inputs restricted to one key.',
+        technique='Lean 4 theorems (per-key factorisation of dictionary updates and of from_sequence / get_subset at extension level) + before/after snapshots + single-key re-runs on the implementation',
+        text='A per-key update run over a dictionary is proved to change each key independently (foldl_putKey_key, insertWith_key, filterMeta_key); the result entry of every key of a successful from_sequence / get_subset is proved to be the per-key merge / subset of the inputs' entries for that key (fromSequence_key, getSubset_key); on the implementation every merge/subset input is snapshotted before and after and every result is compared with the result of inputs restricted to one key.',
         design='DESIGN.md §7 C13', note=BASE_NOTE + ' Aliasing of nested mutable values (Python object identity) is runtime and only probed.'),
     'C07': dict(
         technique='Lean 4 one-step validity theorems (make_empty, merge, subset, simplify) + random API-operation chains checked after every step',
@@ -62,8 +62,8 @@ CLAIMED = {
         design='DESIGN.md §7 C02', note=BASE_NOTE + ' nibabel DicomWrapper (pixel array orientation, rescale, affine) and binary64 rounding are trusted; exact only on the integer / axis-aligned lattice, atol 1e-3 for oblique series.'),
     'C11': dict(
         technique='Lean 4 iff theorem between get_shape (model) and the spelled-out acceptance conditions + soundness corollaries + refutation of the full-strength claim (F13) + sub-multiset search',
-        text='get_shape is proved to accept iff: non-empty, counts factor, spacing test passes, every volume block lists exactly the sorted distinct positions, every vector block is constant; hence n = S*T*V and each refusal condition of the property gives invalid. The claim that every volume has one time ordinate is refuted by a kernel-checked witness (F13). Sub-multisets (drop one/two, duplicate, drop volume/position, irregular gap), add-time refusals and the four queries are run on the implementation; model and implementation agree on acceptance, dims and canonical order.',
-        design='DESIGN.md §7 C11', note=BASE_NOTE + ' That a complete regular grid is always accepted is established by the search and the correspondence only (no Lean theorem yet); key guessing is not in the model.'),
+        text='get_shape is proved to accept iff: non-empty, counts factor, spacing test passes, every volume block lists exactly the sorted distinct positions, every vector block is constant; hence n = S*T*V and each refusal condition of the property gives invalid. The claim that every volume has one time ordinate is refuted by a kernel-checked witness (F13). A complete regular S x T x V grid added in any order is proved accepted with shape (S,T,V) (accept_complete, accept_complete_order, unbounded). Sub-multisets (drop one/two, duplicate, drop volume/position, irregular gap), add-time refusals and the four queries are run on the implementation; model and implementation agree on acceptance, dims and canonical order.',
+        design='DESIGN.md §7 C11', note=BASE_NOTE + ' That a complete regular grid is accepted for every add order is a theorem (accept_complete_order); key guessing is not in the model.'),
     'C12': dict(
         technique='Lean 4 invariant proof over all op histories of the stack state machine (sort is a function of the multiset) + byte comparison of histories and hash seeds on the implementation',
         text='For every add order and every finite history of get_shape/get_data/get_affine/to_nifti the file order a call builds its output from is proved to be a function of the file set and the call (history_independent), by an invariant over the dirty flag and permutation invariance of the two-stage sort. On the implementation random and targeted histories and add permutations are compared byte-wise with a fresh stack, and the same series is converted in processes with different PYTHONHASHSEED.',
